@@ -74,8 +74,21 @@ pub fn run_e(line: &str) -> String {
 
 #[cfg(feature = "protobuf")]
 fn pb(fams: &[prometheus::proto::MetricFamily], prefill: &[u8], fail_after: i64) -> (Result<(), String>, Vec<u8>) {
+    // The families have a history: each one is first encoded WITHOUT its last sample (whatever the encoder or the
+    // protobuf runtime caches inside a message - sizes, buffers - is then populated for that shorter family, and an
+    // encode call has happened on this thread, possibly one that failed), then the sample is put back, then the
+    // real call is made.  Encoding must depend on the current content only.
+    let mut fams: Vec<prometheus::proto::MetricFamily> = fams.to_vec();
+    for mf in fams.iter_mut() {
+        let last = mf.mut_metric().pop();
+        let mut sink: Vec<u8> = vec![];
+        let _ = prometheus::ProtobufEncoder::new().encode(std::slice::from_ref(&*mf), &mut sink);
+        if let Some(m) = last {
+            mf.mut_metric().push(m);
+        }
+    }
     let mut w = LimitWriter { buf: prefill.to_vec(), budget: fail_after };
-    let r = prometheus::ProtobufEncoder::new().encode(fams, &mut w);
+    let r = prometheus::ProtobufEncoder::new().encode(&fams, &mut w);
     (r.map_err(|e| cerr(&e)), w.buf)
 }
 #[cfg(not(feature = "protobuf"))]
